@@ -144,14 +144,16 @@ func (k Keeper) EditToken(
 	}
 
 	if maxSupply > 0 {
+		// compare in min units: flooring the circulating amount to main units would accept a
+		// maximum below it whenever a fraction of a main unit has been burned
 		issuedAmt := k.getTokenSupply(ctx, token.MinUnit)
-		issuedMainUnitAmt := issuedAmt.Quo(sdkmath.NewIntWithDecimal(1, int(token.Scale)))
+		precision := sdkmath.NewIntWithDecimal(1, int(token.Scale))
 
-		if sdkmath.NewIntFromUint64(maxSupply).LT(issuedMainUnitAmt) {
+		if sdkmath.NewIntFromUint64(maxSupply).Mul(precision).LT(issuedAmt) {
 			return errorsmod.Wrapf(
 				types.ErrInvalidMaxSupply,
-				"max supply must not be less than %s",
-				issuedMainUnitAmt,
+				"max supply must not be less than %s%s",
+				issuedAmt, token.MinUnit,
 			)
 		}
 
